@@ -1,4 +1,16 @@
-"""C16 — signatures and certificates verify only when nothing was altered.  Sidecar contracts."""
+"""C16 — signatures and certificates verify only when nothing was altered.  Sidecar contracts.
+
+(a) SSHKey.verify / sign: algorithm-name gate over THIS key's algorithm set, decode errors mean False, never raises;
+    the per-instance sets of the ECDSA classes are fresh objects and the set shared through SSHKey is never
+    mutated (frame); per key type verify_ssh consumes the whole blob.
+(b) SSHOpenSSHCertificate.construct: the object is the parse of the signed bytes (PROTOCOL.certkeys layout), the CA
+    signature is checked over exactly everything before the signature string, with the embedded CA key, options
+    are decoded with the tables of the certificate's own type; generate emits the same layout; _decode_options
+    rejects any critical option it does not understand; validate: type / validity window / principal table.
+(c) SSHSIG: signed blob layout, create / validate against PROTOCOL.sshsig, allowed-signers entry matching.
+Packet parsing in (b), (c) is verified against a word-equation contract of SSHPacket that is itself proved on
+packet.py in the same run.
+"""
 import z3
 from pyvc.contracts import *
 from pyvc.engine import LoopSpec, Out, Prove, Record
@@ -19,10 +31,9 @@ ALGSET = 'dict[bytes,bool]'       # a set of algorithm names: only the domain of
 KEY_CLASSES = {'SSHKey': {'all_sig_algorithms': ALGSET}}
 
 
-def rest_of(st, p):
-    r = st.rec(p)
-    pk, i, n = r.fields['_packet'].z, r.fields['_idx'].z, r.fields['_len'].z
-    return z3.Extract(pk, i, n - i)
+def S_(x):
+    """RFC 4251 string: uint32 length || bytes"""
+    return z3.Concat(be(z3.IntVal(4), z3.Length(x)), x)
 
 
 def verify_ssh_stub(cx):
@@ -249,7 +260,8 @@ def _pkt_uint(width):
         v = cx.fresh('int', f'u{width * 8}')
         enc = be_term(cx.st, width, v.z)
         sets, assume, f, _r = _advance(cx, enc, f'u{width * 8}')
-        return [Out(ret=v, sets=sets, assume=assume + [v.z >= 0, v.z < 256 ** width]),
+        return [Out(ret=v, sets=sets, assume=assume + [v.z >= 0, v.z < 256 ** width],
+                    event=('pkt_uint', (cx.recv, width, v))),
                 Out(exc=VExc('PacketDecodeError'), assume=[z3.Length(f['ghost_rest']) < width])]
     stub.modifies = ('_idx', 'ghost_done', 'ghost_rest')
     return stub
@@ -384,11 +396,6 @@ real_init = _real(
                                            c.new('_len') == z3.Length(c.arg('packet'))))])
 
 
-def S_(x):
-    """RFC 4251 string"""
-    return z3.Concat(be(z3.IntVal(4), z3.Length(x)), x)
-
-
 # ------------------------------------------------------------------ OpenSSH certificates: construct
 # PROTOCOL.certkeys: cert = string type || string nonce || <public key fields> || uint64 serial || uint32 type ||
 #   string key id || string valid principals || uint64 valid after || uint64 valid before ||
@@ -403,8 +410,13 @@ ASSUMPTIONS += [
 ]
 
 CERT_CLS = 'SSHOpenSSHCertificateV01'
-TABLES = {n: VTag('table:' + n) for n in ('_user_option_decoders', '_user_extension_decoders',
-                                          '_host_option_decoders', '_host_extension_decoders')}
+def _table_const(n):
+    # the class-level tables are four distinct objects; replay does not compare values of sort Tag
+    return VOpaque(z3.Const('table:' + n, opaque_sort('Tag')), 'Tag')
+
+
+TABLES = {n: _table_const(n) for n in ('_user_option_decoders', '_user_extension_decoders',
+                                       '_host_option_decoders', '_host_extension_decoders')}
 CERT_CLASSES = dict({CERT_CLS: {}, 'KeyHandler': {}, 'OptionsDict': {}, 'cls': {},
                      'SSHKey': {'sig_algorithms': 'seq[bytes]', 'cert_algorithms': 'seq[bytes]'}},
                     **PKT_CLASSES)
@@ -475,12 +487,13 @@ def options_for_own_type(c):
     (user: force-command, source-address are understood; host: no critical option is), criticals as critical;
     any other type is refused"""
     evs = c.events('decode_options')
-    if c.raised is None:
-        tz = c.new('_cert_type', c.result_v)
-    elif evs:
-        tz = c.new_state.env['cert_type'].z
-    else:
-        return z3.BoolVal(True)
+    if not evs:
+        return z3.BoolVal(c.raised is not None)
+    # the type on the wire: the only uint32 field of the certificate body
+    u32 = [e[1][2].z for e in c.events('pkt_uint') if e[1][0].addr == c.argv('packet').addr and e[1][1] == 4]
+    if len(u32) != 1:
+        return z3.BoolVal(False)
+    tz = u32[0]
     is_user, is_host = tz == 1, tz == 2
     conj = []
     for k, (_o, table, critical, _d) in enumerate(e[1] for e in evs):
@@ -494,6 +507,7 @@ def options_for_own_type(c):
                                  z3.And(is_host, c.eq(table, TABLES[want % 'host'])))))
     if c.raised is None:
         conj.append(z3.BoolVal(len(evs) == 2))
+        conj.append(c.new('_cert_type', c.result_v) == tz)
     return z3.And(conj)
 
 
@@ -531,9 +545,9 @@ def cert_layout(c):
 def principals_inv(c):
     """plist(field) == collected ++ plist(unread part); the reader stays on the principals field"""
     st = c.new_state
-    p = st.env['packet']
+    p = c.localv('packet')
     f = pkt_fields(st, p)
-    acc = c.ex.deref(st, st.env['principals'])
+    acc = c.ex.deref(st, c.localv('principals'))
     accz = to_z3(acc, parse_type('seq[str]')) if isinstance(acc, VList) else acc.z
     field = c.loop_entry.rec(c.loop_entry.env['packet']).fields['_packet'].z
     return z3.And(pkt_inv(st, p), f['_packet'] == field,
@@ -612,7 +626,7 @@ option_decoder_stub.modifies = ()
 
 def options_inv(c):
     st = c.new_state
-    p = st.env['packet']
+    p = c.localv('packet')
     f = pkt_fields(st, p)
     T = c.argv('decoders').dom
     conj = [pkt_inv(st, p), f['_packet'] == c.arg('options'),
@@ -696,6 +710,85 @@ cert_validate = Spec(
 cert_validate.runtime_class = 'SSHOpenSSHCertificateV01'
 
 
+# ------------------------------------------------------------------ generate: signs the prefix construct verifies
+ENC_TABLES = {n: _table_const(n) for n in ('_user_option_encoders', '_user_extension_encoders',
+                                           '_host_option_encoders', '_host_extension_encoders')}
+
+
+def encode_options_stub(cx):
+    r = cx.fresh('bytes', 'encoded_options')
+    return [Out(ret=r, event=('encode_options', (cx.args[0], cx.args[1], r)))]
+
+
+def ca_sign_stub(cx):
+    r = cx.fresh('bytes', 'ca_signature')
+    ev = ('ca_sign', (cx.recv, cx.args[0], cx.args[1], r))
+    return [Out(ret=r, event=ev), Out(exc=VExc('ValueError'), event=ev)]
+
+
+def encode_ssh_public_stub(cx):
+    r = cx.fresh('bytes', 'keyfields')
+    return [Out(ret=r, event=('encode_ssh_public', (r,)))]
+
+
+for _f in (encode_options_stub, ca_sign_stub, encode_ssh_public_stub):
+    _f.modifies = ()
+
+
+def generated_layout(c):
+    """generate emits  tbs || String(signing_key.sign(tbs, sig_alg))  with tbs laid out as PROTOCOL.certkeys says and
+    ending in String(CA public key): exactly the prefix construct() hands to verify"""
+    st, res = c.new_state, c.result_v
+    sg, eo, ks = c.events('ca_sign'), c.events('encode_options'), c.events('encode_ssh_public')
+    rnd = [x for x in c.calls() if x['key'] == 'os.urandom']
+    if len(sg) != 1 or len(eo) != 2 or len(ks) != 1 or len(rnd) != 1:
+        return z3.BoolVal(False)
+    signer, tbs, alg, sig = sg[0][1]
+    ca = c.argv('signing_key')
+    b8 = lambda v: be(z3.IntVal(8), v)
+    pbytes = c.local('principal_bytes')
+    ctype = c.arg('cert_type')
+    want = z3.Concat(S_(c.arg('algorithm')), S_(rnd[0]['ret'].z), ks[0][1][0].z, b8(c.arg('serial')),
+                     be(z3.IntVal(4), ctype), S_(utf8enc(c.arg('key_id'))), S_(pbytes), b8(c.arg('valid_after')),
+                     b8(c.arg('valid_before')), S_(eo[0][1][2].z), S_(eo[1][1][2].z), S_(utf8enc(z3.StringVal(''))),
+                     S_(c.old('public_data', ca)))
+    is_user = ctype == 1
+    tables_ok = z3.And(
+        z3.If(is_user, c.eq(eo[0][1][1], ENC_TABLES['_user_option_encoders']),
+              c.eq(eo[0][1][1], ENC_TABLES['_host_option_encoders'])),
+        z3.If(is_user, c.eq(eo[1][1][1], ENC_TABLES['_user_extension_encoders']),
+              c.eq(eo[1][1][1], ENC_TABLES['_host_extension_encoders'])))
+    return z3.And(tbs.z == want, z3.BoolVal(signer.addr == ca.addr), alg.z == c.arg('sig_alg'),
+                  c.new('public_data', res) == z3.Concat(want, S_(sig.z)), z3.Length(rnd[0]['ret'].z) == 32,
+                  tables_ok,
+                  c.new('_serial', res) == c.arg('serial'), c.new('_cert_type', res) == ctype,
+                  c.new('_valid_after', res) == c.arg('valid_after'),
+                  c.new('_valid_before', res) == c.arg('valid_before'))
+
+
+cert_generate = Spec(
+    PROP, 'public_key', 'SSHOpenSSHCertificate.generate', self_class=CERT_CLS,
+    params=dict(signing_key='obj:SSHKey', algorithm='bytes', key='obj:SSHKey', serial='int', cert_type='int',
+                key_id='str', principals='seq[str]', valid_after='int', valid_before='int',
+                options='opaque:OptionsDict', sig_alg='bytes', comment='opt[bytes]'),
+    classes={CERT_CLS: {}, 'cls': {},
+             'SSHKey': {'sig_algorithms': 'seq[bytes]', 'cert_algorithms': 'seq[bytes]', 'public_data': 'bytes'}},
+    class_consts={(CERT_CLS, n): t for n, t in ENC_TABLES.items()},
+    inline={'cls._encode': ('public_key', 'SSHOpenSSHCertificateV01._encode'),
+            'cls.__init__': ('public_key', 'SSHOpenSSHCertificate.__init__'),
+            'super().__init__': ('public_key', 'SSHCertificate.__init__')},
+    stubs={'cls._encode_options': encode_options_stub,
+           'SSHKey.convert_to_public': ret('obj:SSHKey', 'public_key'),
+           'SSHKey.encode_ssh_public': encode_ssh_public_stub, 'SSHKey.sign': ca_sign_stub,
+           'self.set_comment': noop()},
+    ensures=[('certificate==tbs||String(sign(tbs))-in-PROTOCOL.certkeys-layout', generated_layout)],
+    raises={'ValueError': True, 'OverflowError': True})
+cert_generate.runtime_class = CERT_CLS
+# the replay models of these paths need the byte-level definition of every be(8, .) term and mostly time out
+# (6 s each); the function is replayed natively only to confirm refuted obligations
+cert_generate.no_replay = True
+
+
 # ------------------------------------------------------------------ decode_ssh_certificate: failure => KeyImportError
 def alg_map_get_stub(cx):
     """_certificate_alg_map.get(alg, (None, None)): (key handler, certificate class) registered for alg"""
@@ -748,6 +841,7 @@ ASSUMPTIONS += [
     'registered OpenSSH certificate classes always come with a key handler (register_certificate_alg), so the '
     'assert in construct is unreachable from decode_ssh_certificate',
     'SSHAllowedSigners.validate / WildcardPatternList.matches / import_public_key are abstract',
+    'crypto back-end key.verify(...) / der_encode are abstract (a verdict / some bytes)',
 ]
 HASHES = {b'sha256': 32, b'sha512': 64}
 hashfn = z3.Function('H', BytesS, BytesS, BytesS)        # H(algorithm name, message)
@@ -946,6 +1040,60 @@ validate_sshsig_raw = _mk_validate_sshsig(False)
 validate_sshsig_armoured = _mk_validate_sshsig(True)
 
 
+# ---- create_sshsig: emits what validate_sshsig parses
+def load_keypairs_stub(cx):
+    kp = cx.fresh('obj:KeyPair', 'keypair')
+    return [Out(ret=cx.st.alloc(VList([kp]))), Out(ret=cx.st.alloc(VList([])))]
+
+
+def keypair_sign_stub(cx):
+    r = cx.fresh('bytes', 'signature')
+    return [Out(ret=r, event=('kp_sign', (cx.recv, cx.args[0], r)))]
+
+
+def wrap_base64_stub(cx):
+    r = cx.fresh('bytes', 'armoured')
+    return [Out(ret=r, event=('armour', (cx.args[0], cx.args[1], r)))]
+
+
+for _f in (load_keypairs_stub, keypair_sign_stub, wrap_base64_stub):
+    _f.modifies = ()
+
+utf8enc2 = z3.Function('encode_utf8', StrS, BytesS)       # the engine's name for str.encode('utf-8')
+
+
+def created_sshsig(c):
+    """PROTOCOL.sshsig: "SSHSIG" || uint32 1 || String(pubkey) || String(namespace) || String(reserved="") ||
+    String(hash) || String(signature over the signed-data blob of this message / namespace / hash)"""
+    sg = c.events('kp_sign')
+    sd = [x for x in c.calls() if x['key'] == '_signed_data']
+    if len(sg) != 1 or len(sd) != 1:
+        return z3.BoolVal(False)
+    kp, signed, sig = sg[0][1]
+    hn = utf8enc2(c.arg('hash_name'))
+    ns = c.arg('namespace')
+    digest = z3.If(c.arg('is_hashed'), c.arg('data'), hashfn(hn, c.arg('data')))
+    e = z3.Empty(BytesS)
+    raw = z3.Concat(bytes_const(b'SSHSIG'), be(z3.IntVal(4), z3.IntVal(1)), S_(c.new('public_data', kp)),
+                    S_(utf8enc(ns)), S_(e), S_(hn), S_(sig.z))
+    arm = c.events('armour')
+    out = z3.And(c.result == raw, z3.BoolVal(not arm)) if not arm else \
+        z3.And(arm[0][1][0].z == raw, c.result == arm[0][1][2].z, z3.Not(c.arg('raw')))
+    return z3.And(signed.z == sshsig_blob(ns, hn, digest), out,
+                  z3.Implies(c.arg('raw'), z3.BoolVal(not arm)))
+
+
+create_sshsig = Spec(
+    PROP, 'sshsig', 'create_sshsig',
+    params=dict(key='opaque:KeyArg', data='bytes', is_hashed='bool', hash_name='str', namespace='str', raw='bool'),
+    classes={'KeyPair': {'has_x509_chain': 'bool', 'sig_algorithm': 'bytes', 'public_data': 'bytes'}},
+    stubs={'load_keypairs': load_keypairs_stub, 'KeyPair.set_sig_algorithm': noop('set_sig_algorithm'),
+           '_signed_data': fn_contract_stub(lambda: signed_data), 'KeyPair.sign': keypair_sign_stub,
+           'wrap_base64': wrap_base64_stub},
+    ensures=[('signature-blob==PROTOCOL.sshsig-layout-over-this-message', created_sshsig)],
+    raises={'ValueError': True}, returns='bytes')
+
+
 # ---- allowed_signers entry: principal pattern AND namespace pattern (if given) AND validity window
 ENTRY_FIELDS = {'principals': 'obj:PatternList', 'options': 'obj:OptionsMap', 'ghost_namespaces': 'opt[obj:PatternList]',
                 'ghost_valid_after': 'opt[int]', 'ghost_valid_before': 'opt[int]'}
@@ -1012,6 +1160,139 @@ match_options = Spec(
     stubs={'OptionsMap.get': entry_options_get_stub, 'PatternList.matches': pattern_matches_stub,
            'time.time': time_stub},
     ensures=[('principal-and-namespace-and-validity-window', match_options_post)], returns='bool')
+
+
+# ------------------------------------------------------------------ per key type verify_ssh: blob fully consumed
+# SSHKey.verify hands over the reader positioned after the algorithm name.  Whatever follows must be exactly the
+# signature encoding of that key type - anything trailing makes the signature invalid (PacketDecodeError, which
+# SSHKey.verify turns into False) - and the back-end primitive is asked about the caller's data.
+def crypto_verify_stub(cx):
+    r = cx.fresh('bool', 'crypto_ok')
+    return [Out(ret=r, event=('crypto_verify', tuple(cx.args) + (r,)))]
+
+
+def pkt_get_mpint(cx):
+    """get_mpint(): a string, read as a two's complement integer (value uninterpreted)"""
+    from pyvc.builtins_model import be_term
+    v = cx.fresh('bytes', 'mpint')
+    piece = z3.Concat(be_term(cx.st, 4, z3.Length(v.z)), v.z)
+    sets, assume, f, rest1 = _advance(cx, piece, 'mpint')
+    ival = z3.Function('sunbe', BytesS, IntS)(v.z)
+    return [Out(ret=VInt(ival), sets=sets, assume=assume + [z3.Length(v.z) < 2 ** 32],
+                event=('pkt_string', (cx.recv, v, VBytes(f['ghost_rest']), rest1))),
+            Out(exc=VExc('PacketDecodeError'))]
+
+
+crypto_verify_stub.modifies = ()
+pkt_get_mpint.modifies = ('_idx', 'ghost_done', 'ghost_rest')
+
+
+def _blob_is(c, layout):
+    """the unread part of the reader at entry is exactly layout(strings read from it)"""
+    p = c.argv('packet')
+    strs = [e[1][1].z for e in c.events('pkt_string') if e[1][0].addr == p.addr]
+    return c.old('ghost_rest', p) == layout(strs)
+
+
+def _prim_verdict(c, nargs):
+    evs = c.events('crypto_verify')
+    if len(evs) != 1:
+        return None
+    return evs[0][1]
+
+
+def _mk_verify_ssh(module, cls, post, extra_stubs=None, raises=None, **kw):
+    return Spec(
+        PROP, module, cls + '.verify_ssh', self_class=cls,
+        params=dict(data='bytes', sig_algorithm='bytes', packet='obj:SSHPacket'),
+        classes=dict(PKT_CLASSES, **{cls: dict({'_key': 'obj:CryptoKey'}, **kw.pop('fields', {})), 'CryptoKey': {}}),
+        truthy=PACKET_TRUTHY,
+        stubs=dict(PKT_STUBS, **dict({'CryptoKey.verify': crypto_verify_stub,
+                                      'SSHPacket.get_mpint': pkt_get_mpint}, **(extra_stubs or {}))),
+        requires=lambda c: pkt_inv(c.old_state, c.argv('packet')),
+        ensures=[('blob-fully-consumed-and-primitive-verdict-returned', post)],
+        raises=dict({'PacketDecodeError': True}, **(raises or {})), returns='bool', **kw)
+
+
+def _single_string_post(hash_of=None):
+    def post(c):
+        ev = _prim_verdict(c, 0)
+        strs = [e[1][1].z for e in c.events('pkt_string')]
+        if ev is None or len(strs) != 1:
+            return z3.BoolVal(False)
+        conj = [_blob_is(c, lambda ss: S_(ss[0])), ev[0].z == c.arg('data'), ev[1].z == strs[0],
+                c.result == ev[-1].z]
+        if hash_of is not None:
+            conj.append(hash_of(c, ev[2]))
+        return z3.And(conj)
+    return post
+
+
+# RFC 8332 / RFC 4253 / RFC 6187: hash selected by the algorithm NAME (a relabelled signature is checked with the
+# hash of the new label, i.e. by a different primitive)
+RSA_HASH = {b'rsa-sha2-256': 'sha256', b'rsa-sha2-512': 'sha512', b'ssh-rsa': 'sha1', b'rsa2048-sha256': 'sha256'}
+
+
+def _rsa_hash(c, h):
+    a = c.arg('sig_algorithm')
+    return z3.And([z3.Implies(a == bytes_const(k), h.z == z3.StringVal(v)) for k, v in RSA_HASH.items()])
+
+
+def _rsa_known(c):
+    from pyvc import extract
+    keys = extract.get_module('rsa').lookup_const('_hash_algs')
+    return z3.Or([c.arg('sig_algorithm') == bytes_const(k) for k in keys])
+
+
+rsa_verify_ssh = _mk_verify_ssh('rsa', 'RSAKey', _single_string_post(_rsa_hash),
+                                raises={'KeyError': lambda c: z3.Not(_rsa_known(c))})
+ed_verify_ssh = _mk_verify_ssh('eddsa', '_EdKey', _single_string_post())
+
+
+def _ecdsa_post(c):
+    """blob == String(mpint r || mpint s), nothing trailing at either level"""
+    ev = _prim_verdict(c, 0)
+    outer = [e[1] for e in c.events('pkt_string') if e[1][0].addr == c.argv('packet').addr]
+    inner = [e[1] for e in c.events('pkt_string') if e[1][0].addr != c.argv('packet').addr]
+    der = c.events('der_encode')
+    if ev is None or len(outer) != 1 or len(inner) != 2 or len(der) != 1:
+        return z3.BoolVal(False)
+    sig = outer[0][1].z
+    return z3.And(_blob_is(c, lambda ss: S_(ss[0])), sig == z3.Concat(S_(inner[0][1].z), S_(inner[1][1].z)),
+                  ev[0].z == c.arg('data'), ev[1].z == der[0][1][1].z, c.eq(ev[2], c.oldv('_hash_alg')),
+                  c.result == ev[-1].z)
+
+
+def der_encode_stub(cx):
+    r = cx.fresh('bytes', 'der')
+    return [Out(ret=r, event=('der_encode', (cx.args[0], r)))]
+
+
+der_encode_stub.modifies = ()
+
+ec_verify_ssh = _mk_verify_ssh('ecdsa', '_ECKey', _ecdsa_post, extra_stubs={'der_encode': der_encode_stub},
+                               fields={'_hash_alg': 'str'})
+
+
+def _dsa_post(c):
+    """blob == String(40 bytes r||s); any other length is no signature (False, primitive not consulted)"""
+    evs = c.events('crypto_verify')
+    strs = [e[1][1].z for e in c.events('pkt_string')]
+    if len(strs) != 1:
+        return z3.BoolVal(False)
+    exact = _blob_is(c, lambda ss: S_(ss[0]))
+    if not evs:
+        return z3.And(exact, z3.Length(strs[0]) != 40, z3.Not(c.result))
+    ev = evs[0][1]
+    return z3.And(exact, z3.Length(strs[0]) == 40, ev[0].z == c.arg('data'), c.result == ev[-1].z,
+                  z3.BoolVal(len(evs) == 1 and len(c.events('der_encode')) == 1),
+                  ev[1].z == c.events('der_encode')[0][1][1].z, ev[2].z == z3.StringVal('sha1'))
+
+
+dsa_verify_ssh = _mk_verify_ssh('dsa', '_DSAKey', _dsa_post, extra_stubs={'der_encode': der_encode_stub})
+# int.from_bytes of the two 20-byte halves: the engine's big-endian model only defines widths 1, 2, 4 and 8, so the
+# integers handed to der_encode cannot be predicted byte-exactly; no native cross-check for this function
+dsa_verify_ssh.no_replay = True
 
 
 # ------------------------------------------------------------------ lemmas and data checks
@@ -1124,6 +1405,28 @@ def _critical_tables():
     return bad
 
 
+def _rsa_tables():
+    """every algorithm RSAKey accepts has a hash in rsa._hash_algs (else SSHKey.verify would raise KeyError instead of
+    returning False), and the standard names select the hash their RFC prescribes"""
+    import ast
+    from pyvc import extract
+    mod = extract.get_module('rsa')
+    table = mod.lookup_const('_hash_algs')
+    consts = {}
+    for st_ in mod.classes['RSAKey'].body:
+        if isinstance(st_, ast.Assign) and isinstance(st_.targets[0], ast.Name):
+            try:
+                consts[st_.targets[0].id] = ast.literal_eval(st_.value)
+            except ValueError:
+                pass
+    algs = set(consts.get('sig_algorithms', ())) | set(consts.get('x509_sig_algorithms', ()))
+    bad = [f'{a!r} accepted without a hash' for a in sorted(algs) if a not in table]
+    if not algs:
+        bad.append('RSAKey.sig_algorithms not found')
+    bad += [f'{k!r} -> {table.get(k)!r}, RFC says {v!r}' for k, v in RSA_HASH.items() if table.get(k) != v]
+    return bad
+
+
 def extra_checks(tier, seed):
     a, b, r, q, ns1, ns2, h1, h2, d1, d2 = [z3.Const(n, BytesS) for n in
                                             ('a', 'b', 'r', 'q', 'ns1', 'ns2', 'h1', 'h2', 'd1', 'd2')]
@@ -1139,7 +1442,8 @@ def extra_checks(tier, seed):
                   z3.Implies(blob(ns1, h1, d1) == blob(ns2, h2, d2), z3.And(ns1 == ns2, h1 == h2, d1 == d2))),
     ]
     for name, fn in (('C16.data#all_sig_algorithms-is-per-key-class-and-never-mutated-in-place', _algset_usage),
-                     ('C16.data#critical-option-tables-match-PROTOCOL.certkeys', _critical_tables)):
+                     ('C16.data#critical-option-tables-match-PROTOCOL.certkeys', _critical_tables),
+                     ('C16.data#rsa-algorithm-names-select-the-RFC-hash', _rsa_tables)):
         bad = fn()
         lemmas.append({'name': name, 'verdict': 'refuted' if bad else 'proved', 'detail': bad,
                        'backend': 'data (AST)', 'replayed': True})
